@@ -387,6 +387,91 @@ def extract_c_conn_expr(src):
             "dom_tcp": int(d0.group(1)), "dom_dns": int(dom.group(1)), "dom_data": int(dom.group(2)), "dns_early_return": bool(early)}
 
 
+
+# key types: struct types that are (or embed) the key of a map the control plane shares
+KEY_STRUCTS = ("tuples_key", "tuples", "redirect_tuple", "lpm_key")
+# every function of tproxy.c that BUILDS an object of a key type, and how this check exercises it
+KEY_BUILDERS = {
+    "get_tuples": "run by harness/c/c19_layout.c on a destination pre-filled with 0xAA",
+    "copy_reversed_tuples": "run by harness/c/c19_layout.c on a destination pre-filled with 0xAA",
+    "fill_redirect_tuple_from_forward_packet": "run by harness/c/c19_layout.c on a destination pre-filled with 0xAA",
+    "route": "run by harness/c/c19_layout.c with its per-CPU scratch pre-filled with 0xAA (lpm_key members of route_ctx)",
+    "load_redirect_tuple_fast": "kernel-only key (redirect_track is never keyed by the control plane); static rule: caller's object is zero-initialised",
+    "load_redirect_tuple_slow": "kernel-only key (redirect_track is never keyed by the control plane); static rule: caller's object is zero-initialised",
+}
+# builders that clear / fully define their destination themselves, so an uninitialised local may be handed to them
+SELF_CLEARING = {"get_tuples": 2, "copy_reversed_tuples": 2}   # name -> 1-based index of the destination argument
+
+
+def split_functions(s):
+    """(name, params, body) of every top-level function definition of comment-stripped C source"""
+    out = []
+    for m in re.finditer(r"\n(?:static\s+)?(?:[\w\s\*]+?)\b(\w+)\(([^;{}]*?)\)\s*\n\{", s):
+        i = m.end() - 1
+        j = match_brace(s, i)
+        out.append((m.group(1), m.group(2), s[i:j + 1]))
+    return out
+
+
+def scan_key_builders(src):
+    s = strip_c_comments(src)
+    funcs = split_functions(s)
+    found, local_sites = {}, []
+    kt = "|".join(KEY_STRUCTS)
+    for name, params, body in funcs:
+        writes = False
+        for pm in re.finditer(r"(const\s+)?struct (%s) \*(\w+)" % kt, params):
+            if pm.group(1):
+                continue
+            v = pm.group(3)
+            if re.search(r"\b%s->[\w\.\[\]]+\s*=[^=]" % v, body) or re.search(r"__builtin_mem(cpy|set)\(\s*&?%s\b" % v, body) \
+               or re.search(r"bpf_skb_load_bytes\([^;]*&?%s->" % v, body):
+                writes = True
+        if re.search(r"lpm_key_\w+\.(prefixlen|data)\b\s*=[^=]|__builtin_memcpy\(\s*\w+->lpm_key_\w+\.data", body):
+            writes = True
+        if writes:
+            found[name] = True
+        # locals of key type
+        for lm in re.finditer(r"\n\s*struct (%s) (\w+)\s*(=\s*\{[^;]*\})?;" % kt, body):
+            typ, var, init = lm.group(1), lm.group(2), lm.group(3)
+            rest = body[lm.end():]
+            if init is not None:
+                if not re.fullmatch(r"=\s*\{\s*0?\s*\}", init.strip()):
+                    raise Anchor("key-typed local %s in %s() has a partial initialiser; the C driver does not cover it" % (var, name))
+                local_sites.append((name, typ, var, "zero-initialised"))
+                continue
+            um = re.search(r"&%s\b|\b%s\b" % (var, var), rest)
+            call = None
+            if um:
+                # the statement containing the first use
+                st = rest.rfind(";", 0, um.start()) + 1
+                en = rest.find(";", um.start())
+                stmt = rest[st:en]
+                cm = re.match(r"\s*(\w+)\((.*)\)\s*$", stmt, re.S)
+                if cm and cm.group(1) in SELF_CLEARING:
+                    args = [a.strip() for a in cm.group(2).split(",")]
+                    if args[SELF_CLEARING[cm.group(1)] - 1] == "&" + var:
+                        call = cm.group(1)
+            if call is None:
+                raise Anchor("uninitialised key-typed local %s in %s() is not first handed to a known self-clearing key builder" % (var, name))
+            local_sites.append((name, typ, var, "filled by " + call))
+    new = sorted(set(found) - set(KEY_BUILDERS))
+    gone = sorted(set(KEY_BUILDERS) - set(found))
+    if new:
+        raise Anchor("new key-building function(s) in tproxy.c: %s — extend harness/c/c19_layout.c (poisoned destination) and KEY_BUILDERS" % ", ".join(new))
+    if gone:
+        raise Anchor("anchor moved: key-building function(s) %s no longer found" % ", ".join(gone))
+    m = re.search(r"copy_reversed_tuples\(struct tuples_key \*key,\s*struct tuples_key \*dst\)\s*\{(.*?)\n\}", s, re.S)
+    if not m:
+        raise Anchor("anchor moved: copy_reversed_tuples")
+    stmts = [x.strip() for x in m.group(1).split(";") if x.strip()]
+    memset = bool(stmts) and re.sub(r"\s+", "", stmts[0]) == "__builtin_memset(dst,0,sizeof(*dst))"
+    assigns = sorted(re.sub(r"\s+", "", x) for x in stmts if "->" in x and "memset" not in x)
+    if assigns != sorted(["dst->dip=key->sip", "dst->sip=key->dip", "dst->sport=key->dport", "dst->dport=key->sport", "dst->l4proto=key->l4proto"]):
+        raise Anchor("anchor moved: member assignments of copy_reversed_tuples changed: %s" % assigns)
+    return {"builders": sorted(found), "local_sites": local_sites, "reversed_memset": memset}
+
+
 def translate(sc):
     """returns (info dict, coq text).  info carries everything later stages need."""
     tproxy = read("control/kern/tproxy.c")
@@ -482,6 +567,7 @@ def translate(sc):
     add("two_key", need(cd.statics, "two_key", "C static"), need(gc, "consts.TwoKey", "Go const"))
     add("IPPROTO_TCP", 6, need(gc, "consts.IPPROTO_TCP", "Go const"))    # C value checked by the C driver (prints IPPROTO_*)
     add("IPPROTO_UDP", 17, need(gc, "consts.IPPROTO_UDP", "Go const"))
+    kb = scan_key_builders(tproxy)
     ce = extract_c_conn_expr(tproxy)
     add("connectivity.slots_per_outbound", ce["mul_outbound"], need(gc, "control.outboundConnectivitySlotsPerOutbound", "Go const"))
     add("connectivity.slots_per_domain", ce["mul_domain"], need(gc, "control.outboundConnectivitySlotsPerDomain", "Go const"))
@@ -532,6 +618,8 @@ def translate(sc):
                  ("dom_tcp", "outboundConnectivityDomainTCP"), ("dom_dns", "outboundConnectivityDomainDnsUDP"), ("dom_data", "outboundConnectivityDomainDataUDP")):
         L.append("Definition go_conn_%s : N := %d." % (k, int(gc["control." + g])))
     L.append("Definition c_conn_map_entries : N := %d." % cd.maps["outbound_connectivity_map"]["max_entries"])
+    L.append("(* does copy_reversed_tuples() clear its destination before assigning the members? *)")
+    L.append("Definition c_reversed_memset : bool := %s." % vlib.cbool(kb["reversed_memset"]))
     for req in ("tuples_key", "lpm_key", "match_set", "domain_routing"):
         if req not in cname:
             raise Anchor("anchor moved: struct " + req)
@@ -540,7 +628,7 @@ def translate(sc):
             raise Anchor("anchor moved: Go type " + req)
     L.append("")
     info = {"cd": cd, "c_decls": c_decls, "c_skipped": c_skipped, "go": go, "go_decl_list": go_decl_list, "pairs": pairs, "gopairs": gopairs,
-            "unpaired": unpaired, "consts": consts, "conn_expr": ce, "spec": spec}
+            "unpaired": unpaired, "consts": consts, "conn_expr": ce, "spec": spec, "key_builders": kb}
     return info, "\n".join(L) + "\n"
 
 
@@ -698,9 +786,11 @@ def gen_flow(rng, fam=None):
 
 
 def gen_case(rng, kind=None):
-    kind = kind or rng.choice(["tuple"] * 5 + ["conn"] * 3 + ["lpm"] * 4 + ["dom"] * 2 + ["ms"] * 3 + ["mac"])
+    kind = kind or rng.choice(["tuple"] * 4 + ["rev"] * 3 + ["conn"] * 3 + ["lpm"] * 4 + ["dom"] * 2 + ["ms"] * 3 + ["mac"])
     if kind == "tuple":
         return {"k": "tuple", "flow": gen_flow(rng)}
+    if kind == "rev":
+        return {"k": "rev", "flow": gen_flow(rng)}
     if kind == "conn":
         dom = rng.choice([0, 1, 2, 2])
         ob = rng.choice([0, 1, 2, 127, 128, 251, 252, 253, 254, 255]) if rng.random() < 0.5 else rng.randrange(256)
@@ -779,6 +869,8 @@ def go_inputs(c):
     f = c.get("flow")
     if k == "tuple":
         return [{"op": "tuple", "src": ap_str(f["src"], f["gs"], f["sport"]), "dst": ap_str(f["dst"], f["gd"], f["dport"]), "proto": f["proto"]}]
+    if k == "rev":    # the control plane's key for the flow a reply packet f belongs to: tuple (dst -> src)
+        return [{"op": "tuple", "src": ap_str(f["dst"], f["gd"], f["dport"]), "dst": ap_str(f["src"], f["gs"], f["sport"]), "proto": f["proto"]}]
     if k == "conn":
         return [{"op": "conn", "outbound": c["outbound"], "l4": "udp" if c["nt"]["udp"] else "tcp", "ipv": "6" if c["v6"] else "4",
                  "isdns": c["nt"]["isdns"], "dom": c["nt"]["dom"]}]
@@ -802,7 +894,7 @@ def t_line(f):
 
 def c_inputs(c, go_res):
     k = c["k"]
-    if k in ("tuple", "dom", "mac"):
+    if k in ("tuple", "dom", "mac", "rev"):
         return [t_line(c["flow"])]
     if k == "conn":
         return ["K %d %d %d %s" % (c["outbound"], c["l4proto"], c["dport"], "6" if c["v6"] else "4")]
@@ -910,6 +1002,13 @@ def case_to_coq(c, pool, info):
         t = parse_t(c["c"][0])
         return "(KTuple %s %s %s %s %s)" % (c_flow(f, pool), c_go(f["src"], f["gs"], pool), c_go(f["dst"], f["gd"], pool),
                                             hexbytes(g[0]["hex"]), hexbytes(t["tuple"])), pre
+    if k == "rev":
+        t = parse_t(c["c"][0])
+        if "rev" not in t or "rt" not in t:
+            return None, [(5, "C driver did not report the reversed / redirect keys: " + c["c"][0])]
+        prior = "aa" * (len(t["rev"]) // 2)
+        return "(KRev %s %s %s %s %s %s %s)" % (c_flow(f, pool), c_go(f["src"], f["gs"], pool), c_go(f["dst"], f["gd"], pool), hexbytes(prior),
+                                                 hexbytes(g[0]["hex"]), hexbytes(t["rev"]), hexbytes(t["rt"])), pre
     if k == "conn":
         m = re.match(r"K (\S+) alive=(\d) lookups=(\d+)", c["c"][0])
         ck = "None" if m.group(1) == "none" else "(Some %s)" % m.group(1)
@@ -1280,6 +1379,9 @@ def main(argv):
         cov["declarations"] = {"c_translated": [d["kind"] + " " + d["name"] for d in info["c_decls"]], "c_kernel_only_skipped": info["c_skipped"],
                                "go": [k for k, _ in info["go_decl_list"]], "pairs": info["pairs"], "real_vs_stub": info["gopairs"],
                                "go_only": GO_ONLY, "shared_constants": len(info["consts"])}
+        cov["key_builders"] = {"functions": {n: KEY_BUILDERS[n] for n in info["key_builders"]["builders"]},
+                               "key_typed_locals": ["%s(): struct %s %s — %s" % x for x in info["key_builders"]["local_sites"]],
+                               "copy_reversed_tuples_clears_destination": info["key_builders"]["reversed_memset"]}
 
         # ---- 2. proofs
         proof_ok, pinfo = vlib.proof_stage(out, PROPS, TARGETS)
@@ -1470,7 +1572,7 @@ def main(argv):
                    rule="entities from one seeded PRNG, boundary-biased (addresses 0/all-ones/mapped/NAT64/multicast, ports 0/53/65535/byte-swapped 53, prefix lengths 0/1/7/8/9/width-1/width with "
                         "destinations just inside / one bit outside, outbound ids 0/1/251..255, all match_set kinds); signature = (case kind, address or value class, Go representation / prefix class, "
                         "port or hit class); every distinct signature counted (all are non-trivial: each runs both real constructors); plus the exhaustive declaration/constant/map-size items",
-                   cases_by_kind={{1: "tuple", 2: "connectivity", 3: "lpm", 4: "domain", 5: "match_set", 6: "mac"}.get(k, str(k)): v for k, v in sorted(by_kind.items())},
+                   cases_by_kind={{1: "tuple", 2: "connectivity", 3: "lpm", 4: "domain", 5: "match_set", 6: "mac", 7: "reversed_tuple"}.get(k, str(k)): v for k, v in sorted(by_kind.items())},
                    traces_validated_against_impl=n_eval - len(model_fail),
                    comparisons="per entity: Go bytes = Go model, C bytes = C model, models = spec, Go bytes = spec, C bytes = spec, Go bytes = C bytes; "
                                "LPM: C trie holding the Go key hits for the packet iff the prefix contains the address; declarations: model layouts = clang = go/types = compiled",
